@@ -198,6 +198,38 @@ type vmach struct {
 	recvRot  int
 	out      *vpipe
 	nextEph  *btcec.PrivateKey
+	// provenance bookkeeping for the monitor's tampered-accepted clause
+	peer    *vmach
+	recs    []recInfo // records this machine sealed: where their bytes start in its stream
+	nRead   int       // successful reads so far
+	hdrProv []uint64  // origin of the bytes consumed by the last ReadHeader
+	keyHist [][32]byte
+}
+
+// recInfo locates one sealed record in the byte stream of the pipe it was
+// (or will be) written to.
+type recInfo struct {
+	pipe  int
+	start int
+	n     int
+}
+
+// exactRec reports whether the consumed bytes are, byte for byte by origin,
+// the next record of v's peer as the peer wrote it.
+func exactRec(v *vmach, prov []uint64) int {
+	if v.peer == nil || v.nRead >= len(v.peer.recs) {
+		return 0
+	}
+	r := v.peer.recs[v.nRead]
+	if len(prov) != r.n {
+		return 0
+	}
+	for i, o := range prov {
+		if o != uint64(r.pipe)<<40|uint64(r.start+i) {
+			return 0
+		}
+	}
+	return 1
 }
 
 type c11 struct {
@@ -208,6 +240,7 @@ type c11 struct {
 	nKey     int
 	nMach    int
 	nJunk    uint64
+	fullSearches int
 	keys     map[string]*kinfo
 	stats    map[string]int
 }
@@ -362,6 +395,9 @@ func (c *c11) cloneMach(v *vmach) *vmach {
 	n.id = c.nMach
 	n.m.ephemeralGen = func() (*btcec.PrivateKey, error) { return n.nextEph, nil }
 	n.out = v.out.clone(n.id)
+	n.recs = append([]recInfo(nil), v.recs...)
+	n.keyHist = append([][32]byte(nil), v.keyHist...)
+	n.hdrProv = nil
 	return n
 }
 
@@ -373,6 +409,7 @@ func (c *c11) clone(v *vmach) *vmach {
 
 func (c *c11) clonePair(a, b *vmach) (*vmach, *vmach) {
 	na, nb := c.cloneMach(a), c.cloneMach(b)
+	na.peer, nb.peer = nb, na
 	c.pf("clonepair %d %d from=%d %d", na.id, nb.id, a.id, b.id)
 	return na, nb
 }
@@ -381,6 +418,7 @@ func (c *c11) markSplit(v *vmach) {
 	v.split = true
 	v.lastSend = v.m.sendCipher.secretKey
 	v.lastRecv = v.m.recvCipher.secretKey
+	v.keyHist = append(v.keyHist, v.lastSend, v.lastRecv)
 }
 
 func (c *c11) obs(v *vmach) string {
@@ -388,10 +426,12 @@ func (c *c11) obs(v *vmach) string {
 		if v.m.sendCipher.secretKey != v.lastSend {
 			v.sendRot++
 			v.lastSend = v.m.sendCipher.secretKey
+			v.keyHist = append(v.keyHist, v.lastSend)
 		}
 		if v.m.recvCipher.secretKey != v.lastRecv {
 			v.recvRot++
 			v.lastRecv = v.m.recvCipher.secretKey
+			v.keyHist = append(v.keyHist, v.lastRecv)
 		}
 	}
 	return fmt.Sprintf("sn=%d se=%d rn=%d re=%d hl=%d bl=%d", v.m.sendCipher.nonce, v.sendRot,
@@ -512,6 +552,7 @@ func (c *c11) honest() (*vmach, *vmach) {
 	is, rs := c.newKey(), c.newKey()
 	I := c.newMach(true, is, rs)
 	R := c.newMach(false, rs, nil)
+	I.peer, R.peer = R, I
 	c.pf("pair %d %d", I.id, R.id)
 	a1 := c.gen1(I, c.newKey())
 	c.recv1(R, a1)
@@ -527,8 +568,26 @@ func (c *c11) honest() (*vmach, *vmach) {
 // ---- transport operations ---------------------------------------------------
 
 // usedNonce finds, by trial decryption with the real AEAD, which (key, nonce)
-// sealed ct.
-func usedNonce(ct []byte, keys [][32]byte, around uint64) (string, string) {
+// sealed ct: first the expected neighbourhood, then (a bounded number of times
+// per run) every key this connection has used so far with every nonce below
+// the rotation interval. "?" means: none of those.
+func (c *c11) usedNonce(ct []byte, keys [][32]byte, around uint64, all [][32]byte) (string, string) {
+	try := func(ks [][32]byte, ns []uint64) (string, string, bool) {
+		for _, k := range ks {
+			aead, err := chacha20poly1305.New(k[:])
+			if err != nil {
+				continue
+			}
+			for _, n := range ns {
+				var nb [12]byte
+				binary.LittleEndian.PutUint64(nb[4:], n)
+				if _, err := aead.Open(nil, nb[:], ct, nil); err == nil {
+					return kh(k), strconv.FormatUint(n, 10), true
+				}
+			}
+		}
+		return "", "", false
+	}
 	var cand []uint64
 	for d := uint64(0); d < 4; d++ {
 		cand = append(cand, around+d)
@@ -542,19 +601,21 @@ func usedNonce(ct []byte, keys [][32]byte, around uint64) (string, string) {
 	for d := uint64(0); d < 4; d++ {
 		cand = append(cand, d)
 	}
-	for _, k := range keys {
-		aead, err := chacha20poly1305.New(k[:])
-		if err != nil {
-			continue
+	if k, n, ok := try(keys, cand); ok {
+		return k, n
+	}
+	if c.fullSearches < 60 {
+		c.fullSearches++
+		c.stats["nonce_full_search"]++
+		var ns []uint64
+		for n := uint64(0); n < keyRotationInterval+2; n++ {
+			ns = append(ns, n)
 		}
-		for _, n := range cand {
-			var nb [12]byte
-			binary.LittleEndian.PutUint64(nb[4:], n)
-			if _, err := aead.Open(nil, nb[:], ct, nil); err == nil {
-				return kh(k), strconv.FormatUint(n, 10)
-			}
+		if k, n, ok := try(append(append([][32]byte(nil), keys...), all...), ns); ok {
+			return k, n
 		}
 	}
+	c.stats["nonce_unidentified"]++
 	return "?", "?"
 }
 
@@ -574,9 +635,14 @@ func (c *c11) write(v *vmach, msg []byte) string {
 		if v.m.sendCipher.secretKey != kb {
 			keys = append(keys, v.m.sendCipher.secretKey)
 		}
-		hk, hn := usedNonce(v.m.nextHeaderSend, keys, nb)
-		bk, bn := usedNonce(v.m.nextBodySend, keys, nb)
+		all := append([][32]byte(nil), v.keyHist...)
+		if v.peer != nil {
+			all = append(all, v.peer.keyHist...)
+		}
+		hk, hn := c.usedNonce(v.m.nextHeaderSend, keys, nb, all)
+		bk, bn := c.usedNonce(v.m.nextBodySend, keys, nb, all)
 		used = fmt.Sprintf(" hk=%s hn=%s bk=%s bn=%s", hk, hn, bk, bn)
+		v.recs = append(v.recs, recInfo{pipe: v.out.id, start: v.out.written, n: len(v.m.nextHeaderSend) + len(v.m.nextBodySend)})
 	}
 	c.pf("write %d len=%d val=%s => %s%s | %s", v.id, len(msg), valOf(msg), res, used, c.obs(v))
 	return res
@@ -610,6 +676,7 @@ func (c *c11) read(v *vmach, from *vpipe) string {
 	var msg []byte
 	var err error
 	res := ""
+	before := from.prov
 	if guard(func() { msg, err = v.m.ReadMessage(from) }) {
 		res = "panic"
 	} else {
@@ -617,7 +684,9 @@ func (c *c11) read(v *vmach, from *vpipe) string {
 	}
 	c.stats["read_"+res]++
 	if res == "ok" {
-		c.pf("read %d from=%d => ok len=%d val=%s | %s pl=%d", v.id, from.id, len(msg), valOf(msg), c.obs(v), len(from.buf))
+		ex := exactRec(v, before[:len(before)-len(from.prov)])
+		v.nRead++
+		c.pf("read %d from=%d => ok len=%d val=%s exact=%d | %s pl=%d", v.id, from.id, len(msg), valOf(msg), ex, c.obs(v), len(from.buf))
 	} else {
 		c.pf("read %d from=%d => %s | %s pl=%d", v.id, from.id, res, c.obs(v), len(from.buf))
 	}
@@ -629,6 +698,7 @@ func (c *c11) readSplit(v *vmach, from *vpipe) string {
 	var n uint32
 	var err error
 	res := ""
+	before := from.prov
 	if guard(func() { n, err = v.m.ReadHeader(from) }) {
 		res = "panic"
 	} else {
@@ -640,6 +710,8 @@ func (c *c11) readSplit(v *vmach, from *vpipe) string {
 		return res
 	}
 	c.pf("rhead %d from=%d => ok n=%d | %s pl=%d", v.id, from.id, n, c.obs(v), len(from.buf))
+	v.hdrProv = append([]uint64(nil), before[:len(before)-len(from.prov)]...)
+	before = from.prov
 	var msg []byte
 	buf := make([]byte, n)
 	if guard(func() { msg, err = v.m.ReadBody(from, buf) }) {
@@ -649,7 +721,9 @@ func (c *c11) readSplit(v *vmach, from *vpipe) string {
 	}
 	c.stats["rbody_"+res]++
 	if res == "ok" {
-		c.pf("rbody %d from=%d n=%d => ok len=%d val=%s | %s pl=%d", v.id, from.id, n, len(msg), valOf(msg), c.obs(v), len(from.buf))
+		ex := exactRec(v, append(v.hdrProv, before[:len(before)-len(from.prov)]...))
+		v.nRead++
+		c.pf("rbody %d from=%d n=%d => ok len=%d val=%s exact=%d | %s pl=%d", v.id, from.id, n, len(msg), valOf(msg), ex, c.obs(v), len(from.buf))
 	} else {
 		c.pf("rbody %d from=%d n=%d => %s | %s pl=%d", v.id, from.id, n, res, c.obs(v), len(from.buf))
 	}
@@ -927,10 +1001,11 @@ func (c *c11) caseStreamTamper(pre int, sizes []int, mode string) {
 	c.pf("hist %d", I.id)
 	c.pf("hist %d", R.id)
 	for i := 0; i < pre; i++ {
-		c.write(I, nil)
+		// distinct prefill messages: a replayed, reordered or dropped one is visible
+		c.write(I, []byte{byte(i >> 8), byte(i), 0xA1})
 		c.flush(I, -1, false)
 		c.read(R, I.out)
-		c.write(R, nil)
+		c.write(R, []byte{byte(i >> 8), byte(i), 0xB2})
 		c.flush(R, -1, false)
 		c.read(I, R.out)
 	}
@@ -1041,7 +1116,15 @@ func (c *c11) caseStreamTamper(pre int, sizes []int, mode string) {
 			c.read(nr, nr.out)
 		}
 		// replay of the very first record of the session (older key epoch when pre >= 500)
-		try(func(pp *vpipe, ni, nr *vmach) { c.inject(pp, 0, ni.out, 0, encHeaderSize+macSize) })
+		firstRec := encHeaderSize + macSize + sizes[0]
+		if pre > 0 {
+			firstRec = encHeaderSize + macSize + 3
+		}
+		try(func(pp *vpipe, ni, nr *vmach) { c.inject(pp, 0, ni.out, 0, firstRec) })
+		if pre > 2 {
+			// an old record from the middle of the prefill
+			try(func(pp *vpipe, ni, nr *vmach) { c.inject(pp, 0, ni.out, (pre/2)*firstRec, firstRec) })
+		}
 		// random splices
 		for i := 0; i < 6; i++ {
 			try(func(pp *vpipe, ni, nr *vmach) {
@@ -1118,6 +1201,7 @@ func (c *c11) caseHSWrongKey(variant int) {
 	}
 	I := c.newMach(true, is, target)
 	R := c.newMach(false, rs, nil)
+	I.peer, R.peer = R, I
 	c.pf("pair %d %d", I.id, R.id)
 	a1 := c.gen1(I, c.newKey())
 	c.recv1(R, a1)
@@ -1135,6 +1219,7 @@ func (c *c11) caseHSTamper() {
 	is, rs := c.newKey(), c.newKey()
 	I := c.newMach(true, is, rs)
 	R := c.newMach(false, rs, nil)
+	I.peer, R.peer = R, I
 	c.pf("pair %d %d", I.id, R.id)
 	marks12 := []int{0, 1, 2, 33, 34, 49}
 	// version byte: neighbouring and extreme values
@@ -1196,9 +1281,11 @@ func (c *c11) caseHSMix() {
 	is1, is2, rs := c.newKey(), c.newKey(), c.newKey()
 	I1 := c.newMach(true, is1, rs)
 	R1 := c.newMach(false, rs, nil)
+	I1.peer, R1.peer = R1, I1
 	c.pf("pair %d %d", I1.id, R1.id)
 	I2 := c.newMach(true, is2, rs)
 	R2 := c.newMach(false, rs, nil)
+	I2.peer, R2.peer = R2, I2
 	c.pf("pair %d %d", I2.id, R2.id)
 
 	a1 := c.gen1(I1, c.newKey())
@@ -1254,6 +1341,47 @@ func (c *c11) caseHSMix() {
 	_ = x1
 	c.read(R1, I1.out)
 	c.read(R2, I2.out)
+	c.endCase()
+}
+
+// caseHSOrder: acts called out of order (Go dereferences a nil key: panic) and
+// an act three whose first part decrypts to something that is not a point.
+func (c *c11) caseHSOrder() {
+	c.startCase("hs-order")
+	is, rs := c.newKey(), c.newKey()
+	I := c.newMach(true, is, rs)
+	R := c.newMach(false, rs, nil)
+	I.peer, R.peer = R, I
+	c.pf("pair %d %d", I.id, R.id)
+	// responder: act two generated / received before act one was seen
+	c.gen2(c.clone(R), c.newKey())
+	a1 := c.gen1(I, c.newKey())
+	c.recv2(c.clone(R), a1)
+	// initiator: act three before act two
+	c.gen3(c.clone(I))
+	c.recv1(R, a1)
+	// responder: act three before its own act two
+	a2probe := c.gen2(c.clone(R), c.newKey())
+	_ = a2probe
+	a2 := c.gen2(R, c.newKey())
+	c.recv2(I, a2)
+	// act three carrying 33 bytes that are no curve point, correctly sealed
+	bad := c.clone(I)
+	var junk [33]byte
+	junk[0] = 0x05
+	c.rng.Read(junk[1:])
+	var ct []byte
+	if !guard(func() { ct = bad.m.EncryptAndHash(junk[:]) }) {
+		act := make([]byte, ActThreeSize)
+		copy(act[1:], ct)
+		c.rng.Read(act[50:])
+		c.pf("gen3bad %d => ok act=%s", bad.id, hx11(act))
+		c.recv3(c.clone(R), act)
+	}
+	a3 := c.gen3(I)
+	c.recv3(R, a3)
+	c.keysLine(I)
+	c.keysLine(R)
 	c.endCase()
 }
 
@@ -1502,6 +1630,9 @@ func TestVerifC11(t *testing.T) {
 	for i := 0; i < rep(6, 100); i++ {
 		c.caseHSMix()
 	}
+	for i := 0; i < rep(3, 40); i++ {
+		c.caseHSOrder()
+	}
 	// Dial / doHandshake / Conn
 	for i := 0; i < rep(8, 100); i++ {
 		c.caseConn("none", false)
@@ -1559,7 +1690,7 @@ func TestVerifC11(t *testing.T) {
 		for i := 0; i < 4; i++ {
 			c.caseStream(4100+c.rng.Intn(1000), 0.002)
 		}
-		c.caseStream(10100, 0.001)
+		c.caseStream(6600, 0.001)
 	}
 
 	// input distribution summary
